@@ -436,6 +436,18 @@ func unitAgreement(r *core.Run) {
 					if want == "" {
 						return true
 					}
+					// a fractional (float) wire value must be multiplied in floating point,
+					// otherwise the fraction is truncated before scaling
+					if ft := fieldType(pk.TypesInfo, other); ft != nil {
+						if b, isB := ft.Underlying().(*types.Basic); isB && b.Info()&types.IsFloat != 0 {
+							pt, _ := pk.TypesInfo.Types[x].Type.Underlying().(*types.Basic)
+							isFloatProduct := pt != nil && pt.Info()&types.IsFloat != 0
+							cnt++
+							r.Check(isFloatProduct, "unit-agreement", n.next("decode "+owner+"."+fld+" keeps the fraction"), p.Pos(x.Pos()),
+								"the fractional value is scaled in floating point before the conversion to a duration",
+								owner+"."+fld+" is a fractional number of seconds but is converted to an integer duration before it is multiplied by the unit: the fraction is lost on every path that decodes the wire form (EX 2.5 becomes 2s, EX 0.8 becomes an already expired key), while the local path keeps it")
+						}
+					}
 					cnt++
 					r.Check(want == tu, "unit-agreement", n.next("decode "+owner+"."+fld), p.Pos(x.Pos()),
 						owner+"."+fld+" is multiplied by the matching time unit", fmt.Sprintf("%s.%s carries %s on the wire but is multiplied by the %s unit: the expiry is off by a factor of 1000", owner, fld, map[string]string{"s": "seconds", "ms": "milliseconds"}[want], map[string]string{"s": "second", "ms": "millisecond"}[tu]))
